@@ -5,6 +5,7 @@ import (
 	"encoding/hex"
 	"fmt"
 	"os"
+	"regexp"
 	"runtime"
 	"sort"
 	"strconv"
@@ -65,6 +66,7 @@ type Sim struct {
 
 	step     int
 	maxSteps int
+	keyed    map[string]uint64
 	horizon  time.Duration
 	start    time.Time
 	sticky   int
@@ -179,8 +181,16 @@ func (s *Sim) FaultsOfKind(kind string) []Fault {
 // Logf records an event in the journal. Events logged between two quiescent
 // points are sorted before being appended (canonical journal), because the Go
 // runtime decides the order of goroutines woken by one step.
+// scratchNames matches what differs between two executions of one seed in the
+// text of error messages: the scratch directory of the worker process and the
+// random suffixes of temporary files.
+var scratchNames = regexp.MustCompile(`/dev/shm/verif-[A-Za-z0-9]+-[A-Za-z0-9-]*[0-9]{6,}(/data-[0-9]+)?|[0-9]{6,}`)
+
 func (s *Sim) Logf(label, format string, args ...any) {
 	line := label + ": " + fmt.Sprintf(format, args...)
+	if strings.Contains(line, "/dev/shm/verif-") {
+		line = scratchNames.ReplaceAllString(line, "*")
+	}
 	s.mu.Lock()
 	if s.plain {
 		s.appendJournal(line)
@@ -431,6 +441,33 @@ func (s *Sim) Choose(n int) int {
 	return int(s.draw()) % n
 }
 
+// ChooseKeyed is Choose for callers that do not run under a gate (a reader
+// deciding how short its next read is): several of them can be active inside
+// one scheduler step, and the order in which they would take values from the
+// shared schedule vector is the runtime's, not the simulator's. Their choices
+// come from a sequence of their own instead: a pure function of the run seed,
+// the key and the number of earlier choices under that key.
+func (s *Sim) ChooseKeyed(key string, n int) int {
+	if n <= 1 {
+		return 0
+	}
+	s.mu.Lock()
+	if s.keyed == nil {
+		s.keyed = map[string]uint64{}
+	}
+	k := s.keyed[key]
+	s.keyed[key] = k + 1
+	s.mu.Unlock()
+	h := s.Plan.Seed*0x9e3779b97f4a7c15 + k*0xbf58476d1ce4e5b9 + 0x94d049bb133111eb
+	for i := 0; i < len(key); i++ {
+		h = (h ^ uint64(key[i])) * 0x100000001b3
+	}
+	h ^= h >> 31
+	h *= 0xd6e8feb86659fd93
+	h ^= h >> 29
+	return int(h % uint64(n))
+}
+
 func (s *Sim) draw() uint16 {
 	s.mu.Lock()
 	defer s.mu.Unlock()
@@ -581,10 +618,15 @@ func (s *Sim) Loop(cond func() bool) Stop {
 		g := first[pick]
 		s.last = pick
 		s.step++
+		if debugReady {
+			s.appendJournal(fmt.Sprintf("ready: %v", labels))
+		}
 		s.appendJournal(fmt.Sprintf("sched: step %d -> %s | %s", s.step, g.Label, g.Key))
 		s.releaseGate(g)
 	}
 }
+
+var debugReady = os.Getenv("VERIF_JOURNAL_READY") != "" // (debugging aid only: changes the journal)
 
 const maxStallsPerRun = 60
 
@@ -732,8 +774,13 @@ func RunPhases(t *testing.T, plan *Plan, opt Options, body func(s *Sim, phase in
 	if opt.JournalCap == 0 {
 		opt.JournalCap = 4000
 	}
+	if v, err := strconv.Atoi(os.Getenv("VERIF_JOURNAL_CAP")); err == nil && v > 0 {
+		opt.JournalCap = v // (debugging aid)
+	}
 	res := &Result{Seed: plan.Seed}
 	var s *Sim
+	setRuntimeSeed(plan.Seed | 1)
+	defer setRuntimeSeed(0)
 	watchdog := time.AfterFunc(opt.RealTimeout, func() {
 		buf := make([]byte, 1<<20)
 		n := runtime.Stack(buf, true)
